@@ -72,6 +72,8 @@ theorem good_cv (N : List String) (σ : Scope) : Good (fun e => e = .constraintV
     split
     · exact avoid_pure _
     · exact avoid_voidR (look_noCV σ k)
+  · intro h
+    cases h
 
 /-! ### table entries -/
 
@@ -226,8 +228,40 @@ def mapValues (pm : List (String × Expr)) (σ : Scope) : Except Err Scope := do
   let kv ← pm.mapM (fun (p, e) => do let v ← σ.eval e; pure (p, v))
   pure (.dict kv)
 
+/-- `_validate_parameters`: the external parameters are keys of the scope -/
+def presence (xs : List String) (σ : Scope) : Except Err Unit := forM xs (presentKey σ)
+
 theorem mapParameterValues_eq (pm : List (String × Expr)) (cons : List Expr) (σ : Scope) :
-    mapParameterValues pm cons σ = validateCons cons σ.look >>= fun _ => mapValues pm σ := rfl
+    mapParameterValues pm cons σ =
+      presence (kvVars pm ++ consVars cons) σ >>= fun _ => validateCons cons σ.look >>= fun _ => mapValues pm σ := rfl
+
+theorem avoid_presence {xs : List String} {σ : Scope}
+    (h : E .parameterMissing → ∀ x ∈ xs, x ∈ σ.keys) : Avoid E (presence xs σ) := by
+  unfold presence
+  apply avoid_forM
+  intro x hx
+  unfold presentKey
+  split
+  · exact avoid_pure _
+  · rename_i hc
+    refine avoid_error (fun hE => hc ?_)
+    simpa using h hE x hx
+
+theorem presence_congr {xs : List String} {σ σ' : Scope} (h : ∀ x ∈ xs, (x ∈ σ.keys ↔ x ∈ σ'.keys)) :
+    presence xs σ = presence xs σ' := by
+  unfold presence
+  apply forM_congr'
+  intro x hx
+  unfold presentKey
+  have : σ.keys.contains x = σ'.keys.contains x := by
+    rw [Bool.eq_iff_iff]
+    simpa using h x hx
+  rw [this]
+
+theorem presence_append (xs ys : List String) (σ : Scope) :
+    presence (xs ++ ys) σ = presence xs σ >>= fun _ => presence ys σ := by
+  unfold presence
+  simp only [List.forM_append]
 
 theorem avoid_mapValues (hE : SubSc E) {N : List String} {σ : Scope} (hG : Good E N σ)
     {pm : List (String × Expr)} (h : ∀ x ∈ kvVars pm, x ∈ N) : Avoid E (mapValues pm σ) := by
